@@ -20,6 +20,10 @@ pXG1  == <<"/", "x", "/", "$", "1">>
 GET   == <<"G", "E", "T">>
 POST  == <<"P", "O", "S", "T">>
 ET    == <<"E", "T">>
+PURGE == <<"P", "U", "R", "G", "E">>          \* a method no configuration can list
+getLc == <<"g", "e", "t">>                    \* method tokens are case-sensitive
+pAPct == <<"/", "a", "/", "%", "6", "2">>     \* a decoded path that still holds an escape sequence (sent as /a/%2562)
+pXPct == <<"/", "x", "%", "2", "5">>          \* a rewrite target holding one
 hH    == <<"h">>
 hH80  == <<"h", ":", "8", "0">>
 hG    == <<"g">>
@@ -71,8 +75,9 @@ tMissing   == [E(pA, None, NoRE, None, None, FALSE, None) EXCEPT !.backend = "MI
 tRwAll     == E(None, None, R(FALSE, pA, FALSE, FALSE), None, None, FALSE, pC)            \* /a -> /c everywhere
 tHdrValRe  == E(pA, None, NoRE, <<GET>>, <<H("X-A", <<v1, v2>>, R(TRUE, v2, FALSE, FALSE))>>, TRUE, None)  \* value and regexp
 tHdrValOrRe == E(None, pA, NoRE, None, <<H("X-A", <<v1>>, R(TRUE, v2, FALSE, FALSE))>>, FALSE, None)       \* value or regexp
+tRwPct     == E(pA, None, NoRE, None, None, FALSE, pXPct)                                 \* exact, rewrite to /x%25
 C01Templates == {tExactA, tPrefixA, tPrefixRt, tReTail, tReFree, tExactGet, tPrefixPost, tHdrA, tHdrAny, tHdrAll,
-                 tRwExact, tRwPrefix, tRwRe, tThree, tHdrRe, tAny, tMissing, tRwAll, tHdrValRe, tHdrValOrRe}
+                 tRwExact, tRwPrefix, tRwRe, tThree, tHdrRe, tAny, tMissing, tRwAll, tHdrValRe, tHdrValOrRe, tRwPct}
 C01Core == {tExactA, tPrefixRt, tExactGet, tPrefixPost, tHdrA, tHdrAll, tRwRe, tMissing}
 Shell(h, re) == [host |-> h, hostRE |-> re, ipf |-> NoFilter]
 C01ServerFilters == {NoFilter}
@@ -97,9 +102,17 @@ C01InitDeep(c) == C01InitOver(c, C01Core, 3)           \* ~5 k configurations, t
 ip1 == [fam |-> 4, bits |-> <<0, 0>>]
 ip9 == [fam |-> 4, bits |-> <<1, 0>>]
 Hdr2(a, b) == [k \in {"X-A", "X-B"} |-> IF k = "X-A" THEN a ELSE b]
-C01Reqs == {[host |-> h, m |-> m, path |-> p, hdr |-> Hdr2(a, b), ip |-> ip1] :
-               h \in {hH, hH80, hG}, m \in {GET, POST}, p \in {pA, pAB, pAb, pB},
-               a \in {None, v1, v2}, b \in {None, v1}}
+C01ReqsStd == {[host |-> h, m |-> m, path |-> p, hdr |-> Hdr2(a, b), ip |-> ip1] :
+                  h \in {hH, hH80, hG}, m \in {GET, POST}, p \in {pA, pAB, pAb, pB},
+                  a \in {None, v1, v2}, b \in {None, v1}}
+(* requests outside what a configuration can name: method tokens that no method list can hold   *)
+(* (an entry with a list must not match them, one without must), and decoded paths in which an  *)
+(* escape sequence is left (matching and rewriting must not decode again)                        *)
+C01ReqsOdd == {[host |-> h, m |-> m, path |-> p, hdr |-> Hdr2(a, None), ip |-> ip1] :
+                  h \in {hH, hG}, m \in {PURGE, getLc}, p \in {pA, pAB, pAb}, a \in {None, v1}}
+              \cup {[host |-> h, m |-> m, path |-> pAPct, hdr |-> Hdr2(a, None), ip |-> ip1] :
+                  h \in {hH, hG}, m \in {GET, POST, PURGE}, a \in {None, v1}}
+C01Reqs == C01ReqsStd \cup C01ReqsOdd
 
 (* ------------------------------- C12 / C05 universe -------------------------------------- *)
 Block9 == [on |-> TRUE, allow |-> <<>>, block |-> <<[fam |-> 4, bits |-> <<1>>]>>, dflt |-> FALSE]
@@ -153,6 +166,16 @@ C12SimReqs == {[host |-> h, m |-> m, path |-> p, hdr |-> Hdr2(a, None), ip |-> i
                   h \in {hH, hHG, hUp}, m \in {GET, ET}, p \in {pA, pB}, a \in {None, v1}, ip \in {ip1, ip5, ip9}}
 C12SimReqsA == {q \in C12SimReqs : q.path = pA}
 C12FilterFocus == {uPlainA, uABlock5, uAAllow1, uBBlock9, uBAllow1, uPrefixBlock5}
+(* method focus: entries restricted to a method ahead of (or behind) entries for every method   *)
+(* and a header-conditioned entry on the same URL (with rewrites, so that the owning entry       *)
+(* shows in the path too), and requests that differ in the method or the header only: 405 / 400  *)
+(* / routed outcomes for one host+path under different methods and headers                       *)
+uExactAGet    == E(pA, None, NoRE, <<GET>>, None, FALSE, None)               \* /a, GET only
+uPrefixPostRw == E(None, pA, NoRE, <<POST>>, None, FALSE, pX)                \* prefix /a, POST only, rewritten to /x...
+uAnyRw        == E(None, pRoot, NoRE, None, None, FALSE, pY)                 \* prefix /, every method, rewritten to /y...
+C12MethFocus == {uExactAGet, uPrefixGet, uPrefixPostRw, uPlainA, uAnyRw, uHdrA}
+C12MethReqs == {[host |-> h, m |-> m, path |-> pA, hdr |-> Hdr2(a, None), ip |-> ip] :
+                   h \in {hH, hHG}, m \in {GET, POST, ET}, a \in {None, v1}, ip \in {ip1, ip9}}
 (* few requests (one host, one method, two paths, three clients) over sibling entries / rules   *)
 (* with different filters: every (client, path) pair repeats within a short behaviour           *)
 C05FocusReqs == {[host |-> hH, m |-> GET, path |-> p, hdr |-> Hdr2(None, None), ip |-> ip] : p \in {pA, pB}, ip \in {ip1, ip5, ip9}}
